@@ -40,14 +40,20 @@ func init() {
 		Rule: "one case = one generated workflow (emphasis on fan-out of one out-port to several consumers incl. tagging components, fan-in with concurrent port closing, multi-core tasks, parameter feeders, RunTo) run under one tape-chosen schedule on the race-instrumented build; the in-simulator happens-before checker (vector clocks, edges only from go / channel send-receive / close / mutex / WaitGroup as in the Go memory model) reports every pair of conflicting accesses to a tracked location (maps, struct fields reached through pointers, object graphs handed to encoding/json) that is unordered in that execution. distinct = event-log hash; non-trivial = >=2 tasks and >=1 non-default choice",
 		Run: func(c *Case) Verdict {
 			var w *WF
-			if c.Tape.Choose(simrt.StGen, 4, 0) == 1 {
+			switch c.Tape.Choose(simrt.StGen, 6, 0) {
+			case 1:
 				w = lazyIPFanoutWF(c)
-			} else {
+			case 2:
+				w = streamWF(c) // the consumer holds the streamed IP while the producer still works on it
+			default:
 				w = Generate(c.Tape, tierProfile(profC12, c.Tier))
 				if c.Tape.Choose(simrt.StGen, 5, 0) == 1 {
 					pickRunTo(c.Tape, w)
 				}
 			}
+			// a third of the cases run with scipipe's default logging (audit level to
+			// stdout + log file) instead of error level: the loggers then really write
+			w.FullLogging = c.Tape.Choose(simrt.StGen, 3, 0) == 1
 			c.Sample = sample(w)
 			inc := RunInc(w, c.Tape, nil, 0, IncOpts{KillAt: -1, Strategy: strategyOf(c.Tape), Trace: c.Trace, Race: true})
 			c.Absorb(inc)
